@@ -455,6 +455,40 @@ def gen() -> None:
         raise px.Unsupported(f"run_wsgi.execute: shape changed ({e})") from e
     _skel(tr_.body, holes, EXECUTE_TRY_SKELETON, "run_wsgi.execute")
     text += f"Definition final_chunk : list N := {px.coq_string_codes(_lit(holes['H_final'], bytes, 'final chunk'))}.\n"
+    # T2: start_response, the assertions and the first-call test of write(), the flush / terminator tests of execute()
+    sr = inner["start_response"]
+    if [a.arg for a in sr.args.args] != ["status", "headers", "exc_info"] or [ast.unparse(d) for d in sr.args.defaults] != ["None"]:
+        raise px.Unsupported("start_response signature changed")
+    srb = strip_doc(sr.body)
+    try:
+        top = srb[1]
+        tryn = top.body[0]
+        if not (ast.unparse(srb[0]) == "nonlocal status_set, headers_set" and isinstance(tryn, ast.Try) and not tryn.handlers
+                and [ast.unparse(x) for x in tryn.finalbody] == ["exc_info = None"] and len(top.body) == 1):
+            raise AttributeError("try/finally")
+        flat = [ast.If(test=top.test, body=list(tryn.body), orelse=top.orelse)] + srb[2:]
+    except (AttributeError, IndexError) as e:
+        raise px.Unsupported(f"start_response: shape changed ({e})") from e
+    trs = T2("start_response",
+             atoms={"exc_info": ("bool", "exc_info"), "headers_sent": ("bool", "headers_sent"), "headers_set": ("bool", "headers_set"),
+                    "write": ("val", "SRAccept")},
+             exc={"exc_info[1].with_traceback(exc_info[2])": "SRReraise", "AssertionError('Headers already set')": "SRAssert"},
+             binds={("status_set", "status"): None, ("headers_set", "headers"): None})
+    text += ("(* start_response(status, headers, exc_info): the arguments are the truth values of exc_info, of the header list\n"
+             "   already sent and of the header list already set (an empty list counts as not set / not sent) *)\n"
+             "Definition start_response_gen (exc_info headers_sent headers_set : bool) : sr_outcome :=\n  "
+             f"{trs.block(flat, lambda: (_ for _ in ()).throw(px.Unsupported('start_response falls off the end')))}.\n")
+    wb = strip_doc(inner["write"].body)
+    asserts = [x for x in wb if isinstance(x, ast.Assert)]
+    if [ast.unparse(a.test) for a in asserts[:2]] != ["status_set is not None", "headers_set is not None"]:
+        raise px.Unsupported("write(): assertions changed")
+    if ast.unparse(wb[3].test) != "status_sent is None" or ast.unparse(wb[5].test) != "data":
+        raise px.Unsupported("write(): first-call / data tests changed")
+    text += ("Definition write_allowed_gen (status_set_given headers_set_given : bool) : bool := status_set_given && headers_set_given.\n"
+             "Definition write_first_gen (status_sent_given : bool) : bool := negb status_sent_given.\n")
+    trx = T2("execute", atoms={"headers_sent": ("bool", "headers_sent"), "chunk_response": ("bool", "chunk_response")})
+    text += f"Definition exec_flush_gen (headers_sent : bool) : bool := {trx.expr(tr_.body[1].test)[1]}.\n"
+    text += f"Definition exec_final_gen (chunk_response : bool) : bool := {trx.expr(tr_.body[2].test)[1]}.\n"
     head = rw.body[:2]
     try:
         holes = {"H_exp_k": head[0].test.left.func.value.func.value.args[0], "H_exp_v": head[0].test.comparators[0],
@@ -894,6 +928,71 @@ def build_response_spec(rng):
                 proto=rng.choice(["HTTP/1.1", "HTTP/1.1", "HTTP/1.0"]))
 
 
+def gen_script(rng):
+    """what an application does with start_response / write / its iterable, incl. the misuses run_wsgi guards against"""
+    def hdrs(allow_empty=True):
+        n = rng.choice([0, 1, 2]) if allow_empty else rng.choice([1, 2])
+        return [rng.choice(RESP_HDRS[:7]) for _ in range(n)]
+
+    def piece():
+        return bytes(rng.choice(BODY_ALPHA) for _ in range(rng.choice([0, 1, 3, 9])))
+    kind = rng.choice(["replace-before-send", "replace-before-send", "twice", "twice-empty-first", "piece-before-start",
+                       "exc-after-send", "exc-after-send-empty-headers", "lazy-start", "no-pieces"])
+    st = lambda: rng.choice(STATUSES[:8])  # noqa: E731
+    if kind == "replace-before-send":
+        acts = [("s", st(), hdrs(), rng.random() < 0.3)] + [("s", st(), hdrs(), True) for _ in range(rng.choice([1, 2]))]
+        acts += [(rng.choice("wy"), piece()) for _ in range(rng.choice([0, 1, 3]))]
+    elif kind == "twice":
+        acts = [("s", st(), hdrs(False), False), ("s", st(), hdrs(), False), ("y", piece())]
+    elif kind == "twice-empty-first":
+        acts = [("s", st(), [], False), ("s", st(), hdrs(), False), ("y", piece())]
+    elif kind == "piece-before-start":
+        acts = [("y", piece()), ("s", st(), hdrs(), False)]
+    elif kind == "exc-after-send":
+        acts = [("s", st(), hdrs(False), False), (rng.choice("wy"), b"x" + piece()), ("s", "500 X", hdrs(), True), ("y", piece())]
+    elif kind == "exc-after-send-empty-headers":
+        acts = [("s", st(), [], False), ("y", b"x" + piece()), ("s", "500 X", hdrs(), True), ("y", piece())]
+    elif kind == "lazy-start":
+        acts = [("s", st(), hdrs(), False), ("y", piece()), ("y", piece()), ("w", piece())]
+    else:
+        acts = [("s", st(), hdrs(), False)]
+    return kind, acts
+
+
+def script_line(proto, method, expect, acts) -> str:
+    parts = []
+    for a in acts:
+        if a[0] == "s":
+            parts.append(f"s/{hx(a[1])}/{pairs_hex(a[2])}/{int(a[3])}")
+        else:
+            parts.append(f"{a[0]}/{hx(a[1])}")
+    return f"app {hx(proto)} {hx(method)} {'~' if expect is None else hx(expect)} {'+'.join(parts) if parts else '~'}"
+
+
+def script_app(acts, seen):
+    import sys
+
+    def app(environ, start_response):
+        seen["environ"] = {k: v for k, v in environ.items() if isinstance(v, str)}
+        seen["terminated"] = environ.get("wsgi.input_terminated")
+        seen["input_type"] = type(environ["wsgi.input"]).__name__
+        write = None
+        for a in acts:
+            if a[0] == "s":
+                exc = None
+                if a[3]:
+                    try:
+                        raise KeyError("application failure")
+                    except KeyError:
+                        exc = sys.exc_info()
+                write = start_response(a[1], list(a[2]), exc) if exc else start_response(a[1], list(a[2]))
+            elif a[0] == "w" and write is not None:
+                write(a[1])
+            else:
+                yield a[1]
+    return app
+
+
 def hx(s) -> str:
     if isinstance(s, str):
         s = s.encode("latin1")
@@ -1069,6 +1168,45 @@ def run(chk: Check) -> None:
             for p in rs["pieces"][:rs["n_write"]]:
                 write(p)
             return iter(rs["pieces"][rs["n_write"]:])
+        script = gen_script(rng) if rng.random() < 0.2 and not rq["body_kind"].startswith("chunked") else None
+        if script:
+            # start_response / write() protocol: the state machine of run_wsgi against its model
+            app = script_app(script[1], seen)
+            case = {"kind": "e2e-script", "request": rq["raw"].hex(), "script": script[0],
+                    "acts": [[x.hex() if isinstance(x, bytes) else x for x in a] for a in script[1]], "proto": rs["proto"]}
+            try:
+                raw_resp = with_timeout(drive_handler, 10, rq["raw"], app, rs["proto"])
+            except ImplTimeout:
+                chk.fail("hang", "request handler did not finish within 10 s", case)
+                continue
+            except Exception as e:  # noqa: BLE001
+                chk.fail("handler-crash", f"handler raised {type(e).__name__}: {e}", case)
+                continue
+            chk.case(("script", rq["raw"], script[0], repr(script[1]), rs["proto"]), nontrivial=True)
+            chk.count("e2e:script:" + script[0])
+            expect = next((v for k, v in rq["headers"] if k.lower() == "expect"), None)
+            runtime_100 = (b"HTTP/1.1 100 Continue\r\n\r\n" if expect is not None and expect.lower() == "100-continue"
+                           and rs["proto"] >= "HTTP/1.1" and rq["reqver"] >= "HTTP/1.1" else b"")
+            masked = raw_resp[len(runtime_100):] if raw_resp.startswith(runtime_100) else raw_resp
+            masked = re.sub(rb"\r\nServer: [^\r]*\r\nDate: [^\r]*\r\n", b"\r\nServer: S\r\nDate: D\r\n", masked, count=1)
+            # the documented protocol, independently of the model: misuse is answered with a 500 page, a replacement
+            # before anything was sent takes effect
+            prs = parse_response(raw_resp)
+            code_seen = prs["code"] if prs else None
+            if script[0] in ("twice", "piece-before-start") and code_seen != 500:
+                chk.fail("start-response-misuse-accepted", f"{script[0]}: the client got status {code_seen} instead of the 500 page "
+                         "(AssertionError expected from start_response / write)", case)
+            if script[0] in ("replace-before-send", "lazy-start", "no-pieces"):
+                want_code = int([a for a in script[1] if a[0] == "s"][-1][1].split()[0])
+                if code_seen != want_code:
+                    chk.fail("start-response-replacement-lost", f"{script[0]}: the client got status {code_seen}, the last accepted "
+                             f"start_response said {want_code}", case)
+            if script[0] == "exc-after-send" and (code_seen != int(script[1][0][1].split()[0]) or script[1][1][1] not in raw_resp):
+                chk.fail("response-after-send-replaced", f"exc-after-send: status {code_seen} / first piece missing", case)
+            lines.append(script_line(rs["proto"], rq["method"], expect, script[1]))
+            impl_out.append("S" + hexs(masked))
+            cases.append(case)
+            continue
         case = {"kind": "e2e", "request": rq["raw"].hex(), "response": {"status": rs["status"], "headers": rs["headers"],
                                                                           "pieces": [p.hex() for p in rs["pieces"]], "n_write": rs["n_write"],
                                                                           "proto": rs["proto"]}, "ops": dops}
@@ -1214,6 +1352,21 @@ def run(chk: Check) -> None:
                     hsorted = sorted((bytes.fromhex(x.split(":")[0]).decode("latin1"),
                                       bytes.fromhex(x.split(":")[1]).decode("latin1") if x.split(":")[1] != "-" else "") for x in items)
                     b = head + " hdrs=" + pairs_hex(hsorted)
+                if a.startswith("S"):
+                    # a scripted application: equal when the model reports no exception; otherwise what the model says was
+                    # written before the exception is a prefix of what the client got, and an exception before the first byte
+                    # of the response proper is answered with a 500 page
+                    got, (want, _, werr) = a[1:], b.partition("!")
+                    want = "" if want == "-" else want
+                    got = "" if got == "-" else got
+                    if not werr:
+                        a, b = got, want
+                    elif not got.startswith(want):
+                        a, b = got, want + "...!" + werr
+                    elif bytes.fromhex(want) in (b"", b"HTTP/1.1 100 Continue\r\n\r\n") and b" 500 " not in bytes.fromhex(got)[:80]:
+                        a, b = got, "<a 500 response>!" + werr
+                    else:
+                        a = b = ""
                 if a.startswith("D"):
                     a = a[1:]
                     b = "|".join(p.split("@")[0] for p in b.split("|")) if b else ""
